@@ -601,6 +601,14 @@ def mutate_channel_signed(run, env, rng, case, txo, channel, kind, tx):
     n += 1
     if _still_valid(lambda: txo.is_signed_by(other, env.ledger)):
         return 'claim validates against a different channel (different key)'
+    # another channel claim that copies the signer's PUBLIC key (public data): different claim id, same key
+    twin = Output.pay_claim_name_pubkey_hash(CENT, '@twin', Claim(), rng.randbytes(20))
+    twin.claim.channel.public_key_bytes = channel.claim.channel.public_key_bytes
+    twin.script.generate()
+    Transaction().add_inputs([Input.spend(funding_output(rng, COIN, rng.randbytes(20), 0))]).add_outputs([twin])
+    n += 1
+    if twin.claim_hash != channel.claim_hash and _still_valid(lambda: txo.is_signed_by(twin, env.ledger)):
+        return 'claim validates against a DIFFERENT channel claim that merely carries the same public key'
     # content: flip bits of the message bytes and re-parse
     msg = signable.to_message_bytes()
     if msg:
@@ -779,7 +787,10 @@ def check_sign_sequences(run, model, env, rng, idx):
             dirty = dirty or signer is not None
             mops.append({'op': 'edit', 'm': txo.signable.to_message_bytes().hex()})
         elif op == 'reread':
-            txo.script.generate()
+            last = [o for o in ops[:-1] if o != 'reread']
+            if last and last[-1] in ('clear-signable', 'edit'):
+                txo.script.generate()    # in-place edits and the low-level Signable API leave that to their caller;
+                #                          Output.sign and Output.clear_signature must do it themselves
             tx._reset()
             tx = Transaction(tx.raw)
             txo = tx.outputs[0]
